@@ -176,6 +176,8 @@ def shards(ctx):
                 out.append({"sub": "fuzz", "cfg": cfg, "kind": "placement", "compressed": comp, "checked": checked, "fill": "alphabet"})
                 if cfg == "asm" or checked:
                     out.append({"sub": "fuzz", "cfg": cfg, "kind": "large", "compressed": comp, "checked": checked, "fill": "alphabet"})
+                if ctx.tier == "thorough" and cfg in ("asm", "g64") and checked:
+                    out.append({"sub": "fuzz", "cfg": cfg, "kind": "larger", "compressed": comp, "checked": checked, "fill": "alphabet"})
     for chk in (SUBCHECKS_QUICK if ctx.tier == "quick" else SUBCHECKS_THOROUGH):
         out.append({"sub": "subcheck", "check": chk, "deadline": 300 if ctx.tier == "quick" else 900})
     for chk in GUARD_CHECKS:
@@ -208,8 +210,8 @@ def run_shard(ctx, shard):
         stat, fail = run_fuzz(cfg, kind, shard["compressed"], shard["checked"], shard["fill"], start)
         if fail is None:
             if stat:
-                ctx.ok(False, "parse:%s:%s" % (kind, shard["fill"].rstrip("0123456789")), n=stat["calls"] - stat["lengths_accepted"] if kind not in ("fixed", "placement", "large") else 0)
-                ctx.ok(True, "parse-accepted-length:%s" % kind, n=stat["lengths_accepted"] if kind not in ("fixed", "placement", "large") else stat["calls"])
+                ctx.ok(False, "parse:%s:%s" % (kind, shard["fill"].rstrip("0123456789")), n=stat["calls"] - stat["lengths_accepted"] if kind not in ("fixed", "placement", "large", "larger") else 0)
+                ctx.ok(True, "parse-accepted-length:%s" % kind, n=stat["lengths_accepted"] if kind not in ("fixed", "placement", "large", "larger") else stat["calls"])
                 ctx.extra["objects_accepted"] += stat["objects_accepted"]
                 ctx.extra["remarshalled"] += stat["remarshalled"]
                 ctx.extra["used_afterwards"] += stat.get("used_afterwards", 0)
